@@ -4094,3 +4094,119 @@ mutant('C06-backfill-memo-by-child', 'C06',
          "                    self._bf_cache[this_child] = new_data\n"
          "                new_data = self._bf_cache[this_child]\n")],
        'R-MEMO/key-complete', 'backfill_assignments')
+
+# ----------------------------------------------------------------------
+# round 11
+# ----------------------------------------------------------------------
+_CLU = P+'utils/cli_utils.py'
+_C2CP = P+'utils/csc_to_csr_parallel.py'
+twin('C01-twin-df-from-deep-copy', 'C01',
+     'blob_to_df edits a deep copy of each record',
+     [(_OUT, "    for cell in results_blob:\n"
+       "        this_record = {'cell_id': cell['cell_id']}\n",
+       "    for cell in results_blob:\n"
+       "        cell = copy.deepcopy(cell)\n"
+       "        cell.pop('unused_key', None)\n"
+       "        this_record = {'cell_id': cell['cell_id']}\n")])
+mutant('C15-hdf5-writer-pops-runner-up', 'C15',
+       'the HDF5 writer pops the runner-up list off each record it was '
+       'handed',
+       [(_OUT, "            if 'runner_up_assignment' in cell[level]:\n"
+         "                this_n = len(cell[level]['runner_up_assignment'])\n",
+         "            if 'runner_up_assignment' in cell[level]:\n"
+         "                cell[level].pop('runner_up_probability', None)\n"
+         "                this_n = len(cell[level]['runner_up_assignment'])\n")],
+       'R-ALIAS/records-read-only', '_blob_to_hdf5_results')
+twin('C02-twin-row-total-by-method-sum', 'C02',
+     'row totals of convert_to_cpm taken with the array method',
+     [(_CBU, "    row_sums = np.sum(data, axis=1)\n",
+       "    row_sums = data.sum(axis=1)\n")])
+mutant('C07-row-total-in-data-dtype', 'C07',
+       'row totals of convert_to_cpm accumulated in the type of the data',
+       [(_CBU, "    row_sums = np.sum(data, axis=1)\n",
+         "    row_sums = np.sum(data, axis=1, dtype=data.dtype)\n")],
+       'R-CAP/row-total-accumulator', 'convert_to_cpm')
+twin('C03-twin-runners-up-through-local', 'C03',
+     'n_runners_up read into a local first',
+     [(_FSM, "        n_assignments=type_assignment_config['n_runners_up']+1,\n",
+       "        n_assignments=1+type_assignment_config['n_runners_up'],\n")])
+mutant('C03-runners-up-clamped', 'C03',
+       'the front end asks for at least one runner-up',
+       [(_FSM, "        n_assignments=type_assignment_config['n_runners_up']+1,\n",
+         "        n_assignments=max(1, type_assignment_config"
+         "['n_runners_up'])+1,\n")],
+       'R-PROV/runners-up-as-requested', '_run_mapping')
+twin('C04-twin-children-sorted-in-comprehension', 'C04',
+     'from_data_release builds the sorted child lists with a comprehension',
+     [(_TT, "            data[parent_level] = dict()\n"
+       "            for node in rough_tree[parent_level]:\n"
+       "                data[parent_level][node] = []\n"
+       "                for child in rough_tree[parent_level][node]:\n"
+       "                    data[parent_level][node].append(child)\n"
+       "            for node in data[parent_level]:\n"
+       "                data[parent_level][node].sort()\n",
+       "            data[parent_level] = {\n"
+       "                node: sorted(rough_tree[parent_level][node])\n"
+       "                for node in rough_tree[parent_level]}\n")])
+mutant('C02-bootstrap-iteration-capped', 'C02',
+       'the front end caps the number of bootstrap iterations',
+       [(_FSM, "        bootstrap_iteration=type_assignment_config"
+         "['bootstrap_iteration'],\n",
+         "        bootstrap_iteration=min(\n"
+         "            type_assignment_config['bootstrap_iteration'], 1000),\n")],
+       'R-FWD/config-as-requested', 'bootstrap_iteration')
+mutant('C10-duplicate-test-on-truthy-get', 'C10',
+       'the header map tests the earlier column number for truth',
+       [(_DRU, "            if value in result:\n"
+         "                error_msg += f\"column '{value}' occurs more than "
+         "once\\n\"\n",
+         "            earlier = result.get(value)\n"
+         "            if earlier:\n"
+         "                error_msg += f\"column '{value}' occurs more than "
+         "once\\n\"\n")],
+       'R-IDIOM/truthy-position', 'get_header_map')
+twin('C10-twin-duplicate-test-on-none', 'C10',
+     'the header map tests the earlier column number against None',
+     [(_DRU, "            if value in result:\n"
+       "                error_msg += f\"column '{value}' occurs more than "
+       "once\\n\"\n",
+       "            earlier = result.get(value)\n"
+       "            if earlier is not None:\n"
+       "                error_msg += f\"column '{value}' occurs more than "
+       "once\\n\"\n")])
+mutant('C14-dispatch-failure-logged-only', 'C14',
+       'the parallel transposition wrapper logs a failed dispatch and '
+       'carries on',
+       [(_C2CP, "    finally:\n        _clean_up(tmp_dir)\n",
+         "    except RuntimeError as err:\n"
+         "        print(f'transposition failed: {err}')\n"
+         "    finally:\n        _clean_up(tmp_dir)\n")],
+       'R-HANDLER/dispatch-failure', 'transpose_sparse_matrix_on_disk_v2')
+twin('C14-twin-dispatch-failure-annotated', 'C14',
+     'the parallel transposition wrapper annotates a failed dispatch and '
+     're-raises',
+     [(_C2CP, "    finally:\n        _clean_up(tmp_dir)\n",
+       "    except RuntimeError as err:\n"
+       "        print(f'transposition failed: {err}')\n"
+       "        raise\n"
+       "    finally:\n        _clean_up(tmp_dir)\n")])
+mutant('C16-validation-skipped-by-name', 'C16',
+       'validate_h5ad skips files whose name says they were validated',
+       [(_VH, "    tmp_dir = tempfile.mkdtemp(dir=tmp_dir)\n    try:\n"
+         "        result = _validate_h5ad(\n",
+         "    if '_VALIDATED_' in str(h5ad_path):\n"
+         "        return None, False\n"
+         "    tmp_dir = tempfile.mkdtemp(dir=tmp_dir)\n    try:\n"
+         "        result = _validate_h5ad(\n")],
+       'R-MUST/validation-runs', 'validate_h5ad')
+mutant('C08-query-names-upper-cased', 'C08',
+       'query gene names are upper-cased when no mapping is requested',
+       [(_CLU, "    result = list(var.index.values)\n",
+         "    result = [str(g).upper() for g in var.index.values]\n")],
+       'R-PROV/query-names-as-in-file', '_get_query_gene_names')
+mutant('C09-rows-for-populated-leaves-list-front-end', 'C09',
+       'the multi-file front end numbers rows for the first 10000 leaves '
+       'only',
+       [(_PA, "    cluster_list = list(leaf_to_cells.keys())\n",
+         "    cluster_list = list(leaf_to_cells.keys())[:10000]\n")],
+       'R-COVER/row-per-leaf', 'list_and_tree')
